@@ -405,7 +405,104 @@ def _seq_shards(modes, starts, maxlen, ntok):
     return shards
 
 
+# state carried from one DRAW statement to the next (scale, colour, position), also when a
+# statement breaks off with Illegal function call: what was executed stays, the rejected command
+# changes nothing
+
+def persist_units(c0):
+    mv_, rl = gml.move, gml.rel
+    return [
+        # (text, primitives executed, fails)
+        (b'R4', [mv_('R', 4)], False),
+        (b'U2M+3,-5', [mv_('U', 2), rl(3, -5)], False),
+        (b'S8', [gml.scale(8)], False),
+        (b'S1L9', [gml.scale(1), mv_('L', 9)], False),
+        (b'C1D3', [gml.colour(1), mv_('D', 3)], False),
+        (b'BM50,60', [gml.absolute(50, 60, plot=False)], False),
+        (b'E2', [mv_('E', 2)], False),
+        (b'S0', [], True),
+        (b'S300', [], True),
+        (b'R2S256U9', [mv_('R', 2)], True),
+        (b'D3S0R9', [mv_('D', 3)], True),
+        (b'F2QU9', [mv_('F', 2)], True),
+        (b'C%dL2S-1' % c0, [gml.colour(c0), mv_('L', 2)], True),
+    ]
+
+
+def work_persist(shard):
+    import itertools
+    adapter, nr, firsts, length = shard
+    part = Partial()
+    rig = Rig(adapter, nr)
+    g = rig.g
+    try:
+        units = persist_units(rig.c0)
+        sx, sy = 100, 120
+        TEXT_ROWS = 48      # error messages are printed in the top text rows: pixels above this line are not compared
+        for first in firsts:
+            for rest in itertools.product(range(len(units)), repeat=length - 1):
+                seq = (first,) + rest
+                case = {'leg': 'persist', 'mode': [adapter, nr], 'units': list(seq)}
+                texts = [units[i][0].decode() for i in seq]
+                g.must(b'LOCATE 1,1:PSET (%d,%d),%d:DRAW "S4C%d"' % (sx, sy, rig.c0, rig.c0))
+                pen = gml.Pen(sx, sy).run([gml.scale(4), gml.colour(rig.c0)])
+                part.n += 1
+                part.traces += 1
+                bad = None
+                for k, i in enumerate(seq):
+                    text, prims, fails = units[i]
+                    r = H.run(g.s, b'DRAW "%s"' % text)
+                    pen.run(prims)
+                    if r.exc is not None:
+                        bad = ('persist/host-exception/' + H.exc_key(r.exc), repr(r.exc))
+                        break
+                    if (r.err == 5) != fails or (r.err not in (None, 5)):
+                        bad = ('persist/%s' % ('error-missed' if fails else 'unexpected-error-%s' % r.err),
+                               'statement %d DRAW "%s" gave error %r' % (k, text.decode(), r.err))
+                        break
+                    px, py = g.s.evaluate(b'POINT(0)'), g.s.evaluate(b'POINT(1)')
+                    if (px, py) != (pen.x, pen.y):
+                        prevfail = k > 0 and units[seq[k - 1]][2]
+                        bad = ('persist/position/%s' % ('after-failed-statement' if (fails or prevfail) else 'plain'),
+                               'after statement %d of %r POINT gives (%r,%r), reference pen at (%d,%d)' % (
+                                   k, texts, px, py, pen.x, pen.y))
+                        break
+                actual = rig._collect(g)
+                if bad is None:
+                    exp = {(sx, sy): rig.c0}
+                    for (x0, y0, x1, y1, col) in pen.segments:
+                        for p_ in rig.lineset(x0, y0, x1, y1):
+                            exp[p_] = col
+                    exp = {p_: v for p_, v in exp.items() if v and p_[1] >= TEXT_ROWS}
+                    actual = {p_: v for p_, v in actual.items() if p_[1] >= TEXT_ROWS}
+                    if actual != exp:
+                        bad = ('persist/pixels', 'statements %r: %d pixels differ from the reference' % (
+                            texts, len(set(actual.items()) ^ set(exp.items()))))
+                if bad:
+                    part.violation(bad[0], '%s: %s' % (rig.tag, bad[1]), case)
+                    g.must(b'CLS')
+                    rig._collect(g)
+                part.classes.add('persist/%s' % ''.join('F' if units[i][2] else 'v' for i in seq))
+                part.outcome('fail' if bad else 'ok')
+        part.sample({'mode': [adapter, nr], 'leg': 'persist', 'first': list(firsts)})
+    finally:
+        rig.close()
+    return part
+
+
 def legs(ctx):
+    out = _legs(ctx)
+    nun = len(persist_units(3))
+    modes = MODES4[:2] if ctx.quick else MODES4
+    length = 3 if ctx.quick else 4
+    out.append(Leg('persist', [(a, n, [f], length) for (a, n) in modes for f in range(nun)], work_persist, exhaustive=True,
+                   bound='all sequences of %d DRAW statements over %d units (7 valid ones setting scale / colour / position, 6 that '
+                         'break off with Illegal function call after 0-2 executed commands), without re-initialisation in '
+                         'between, %d modes' % (length, nun, len(modes))))
+    return out
+
+
+def _legs(ctx):
     ntok = len(token_table(4))
     out = []
     if ctx.quick:
@@ -441,6 +538,9 @@ def legs(ctx):
 
 
 def replay(ctx, leg, case):
+    if case.get('leg') == 'persist':
+        # the shard runs all continuations of the first unit; the violation is found again among them
+        return work_persist((case['mode'][0], case['mode'][1], [case['units'][0]], len(case['units'])))
     part = Partial()
     adapter, nr = case['mode']
     rig = Rig(adapter, nr)
